@@ -377,6 +377,7 @@ def _check(R):
         'wall_s': round(wall, 2),
         'violations': len(viol_lines),
     }
+    ev['coverage']['probes'] = {k: counters.get(k, 0) + simc.get(k, 0) for k in PROBES.get(prop, [])}
     zero = [k for k in PROBES.get(prop, []) if counters.get(k, 0) + simc.get(k, 0) == 0]
     if zero:
         ev['coverage']['probes_stuck_at_zero'] = zero
@@ -395,7 +396,25 @@ def _check(R):
 RULES = {
     'default': 'worlds generated from VERIF_SEED (world seed = mix(seed, property, index)); non-trivial = at least one successful table mutation followed by at least one probe/request; distinct = distinct hash of (options, operation history, schedule, fault set) among non-trivial worlds, unioned across workers',
 }
-PROBES = {}
+PROBES = {
+    'C01': ['c01_dispatch_checked', 'c01_param_dispatch', 'c01_404_checked', 'pool_reuse_newest'],
+    'C02': ['c02_paths_resolved', 'c02_expect_404', 'c02_ties'],
+    'C03': ['c03_removed_probe', 'op_remove', 'op_pclean', 'op_clean'],
+    'C04': ['c04_options_checked', 'c04_405_checked', 'c04_star_checked'],
+    'C05': ['hostile_request', 'operator_garbage', 'c05_syntax_agreement'],
+    'C06': ['preempt', 'parked_on_lock', 'linearizable_histories', 'lock_blocked'],
+    'C07': ['variant_b', 'variant_c', 'variant_d', 'preempt', 'pool_cross_task_reuse'],
+    'C08': ['c08_head_with_get', 'c08_head_without_get', 'c08_content_length_checked', 'op_reject'],
+    'C09': ['c09_traces_checked', 'op_guse', 'op_gadd', 'op_gnew'],
+    'C13': ['c13_acceptor', 'c13_no_acceptor', 'c13_composites_checked'],
+    'C14': ['c14_matches_checked', 'op_delete', 'op_regic'],
+    'C16': ['fault_h_pre', 'fault_h_mid', 'fault_mw_pre', 'fault_mw_post', 'fault_site_g404', 'fault_site_head', 'fault_value_rt',
+            'variant_conc', 'variant_group-conc', 'recovery_none', 'preempt'],
+    'C17': ['op_reject', 'c17_snapshots_compared', 'op_reject_duplicate', 'op_reject_malformed', 'op_reject_identical', 'op_reject_unsupported', 'op_reject_method'],
+    'C18': ['c18_trace_any_path', 'c18_trace_ordinary', 'c18_allow_checked', 'short_read', 'op_reject'],
+    'C19': ['c19_steps_compared', 'op_fclean', 'op_prefix', 'op_resource', 'op_url'],
+    'C20': ['op_new', 'op_destroy', 'pool_cross_task_reuse', 'pool_reuse_oldest', 'preempt'],
+}
 
 def replay(path):
     rf = json.load(open(path))
